@@ -113,16 +113,26 @@ def adoption(ctx, context, services_before=0, services_after=0, churn=False, fix
 
     def make_service(sid, flavour):
         F = rt.FLAVOURS[flavour]
+        # every other service is container-like and currently empty: falsy, but alive all the same
+        empty = len(made) % 2 == 1
         if flavour == "threading":
             @service(flavour=F)
             class Svc:
                 def run(self):
                     svc_log.append((sid, _context()))
+
+                if empty:
+                    def __len__(self):
+                        return 0
         else:
             @service(flavour=F)
             class Svc:
                 async def run(self):
                     svc_log.append((sid, _context()))
+
+                if empty:
+                    def __len__(self):
+                        return 0
         if sid.startswith("after") and redecorated:
             # a subclass decorated again for another flavour runs under ITS flavour
             other = FLAV[(FLAV.index(flavour) + 1) % 3]
@@ -268,8 +278,9 @@ def tasks(tier, seed):
 
 
 # -- enumerated real-runtime scenario (NOT solver-decided): adopt while payload cleanup is still running --------
-def _adopt_during_cleanup(target_flavour):
-    """shutdown() is in progress and a trio payload is still inside its shielded cleanup: adopt must not raise"""
+def _adopt_during_cleanup(target_flavour, trigger="shutdown"):
+    """the runtime is stopping (shutdown(), or a failing payload) and a trio payload is still inside its shielded
+    cleanup: adopt must not raise"""
     w = rt.World(accept_delay=0.02)
     runner = w.runner
     cleaning = threading.Event()
@@ -305,7 +316,12 @@ def _adopt_during_cleanup(target_flavour):
         if not w.wait_running():
             return ["runner never reported running"]
         time.sleep(0.1)
-        t = threading.Thread(target=runner.shutdown, daemon=True)
+        if trigger == "shutdown":
+            t = threading.Thread(target=runner.shutdown, daemon=True)
+        else:
+            def fail():
+                raise KeyError("a payload fails")
+            t = threading.Thread(target=lambda: runner.adopt(fail, flavour=threading), daemon=True)
         t.start()
         if not cleaning.wait(10):
             problems.append("the trio payload was not cancelled by shutdown()")
@@ -322,8 +338,10 @@ def _adopt_during_cleanup(target_flavour):
         if t.is_alive():
             problems.append("shutdown() did not return")
         out = w.join(bound=10)
-        if out.kind != "return":
+        if trigger == "shutdown" and out.kind != "return":
             problems.append("accept() did not return normally after shutdown (%s %r)" % (out.kind, out.exc))
+        if trigger != "shutdown" and out.kind != "raise":
+            problems.append("accept() did not end by raising after a payload failed (%s)" % out.kind)
         if target_flavour == "trio_inside" and inside != [("returned", None)]:
             problems.append("adopt from inside a trio payload's cleanup: %r" % (inside,))
     finally:
@@ -336,20 +354,20 @@ def _adopt_during_cleanup(target_flavour):
 
 def extra(tier, seed):
     violations = []
-    for f in FLAV + ("trio_inside",):
-        problems = _adopt_during_cleanup(f)
+    for f, trigger in [(f, "shutdown") for f in FLAV + ("trio_inside",)] + [(f, "failure") for f in FLAV]:
+        problems = _adopt_during_cleanup(f, trigger)
         if problems:
-            problems = _adopt_during_cleanup(f)  # believe it only if it happens twice
+            problems = _adopt_during_cleanup(f, trigger)  # believe it only if it happens twice
         for msg in problems[:1]:
             violations.append({"harness": "adopt_during_cleanup", "label": "adopt does not raise while payload cleanup is finishing (enumerated scenario)",
-                               "inputs": {"flavour": f, "problem": msg}, "params": {}, "status": "confirmed",
+                               "inputs": {"flavour": f, "trigger": trigger, "problem": msg}, "params": {}, "status": "confirmed",
                                "kind": "custom", "module": MOD, "property": PROPERTY})
     return {"violations": violations, "enumerated_shutdown_scenarios": ["adopt(%s) during shielded trio cleanup" % f for f in FLAV + ("trio_inside",)],
             "enumerated_note": "concrete real-runtime scenarios on one OS schedule each: NOT solver-decided"}
 
 
 def replay(v):
-    problems = _adopt_during_cleanup(v["inputs"]["flavour"])
+    problems = _adopt_during_cleanup(v["inputs"]["flavour"], v["inputs"].get("trigger", "shutdown"))
     print(problems)
     print("REPRODUCED" if problems else "not reproduced on this tree")
     return 1 if problems else 0
